@@ -90,6 +90,13 @@ def engines():
         "outputs": [{"name": "O", "terms": OUT_TERMS, "aggregation": "Maximum", "defuzzifier": ("Centroid", 2)}],
         "blocks": [{"conjunction": "Minimum", "disjunction": "Maximum", "implication": "Minimum",
                     "rules": ["if X is lin then O is a with 0.5", "if X is inv then O is b with 0.25", "if X is lin then O is b"]}]}
+    # a weighted output fed by an ordinary rule and by a rule whose degree does not depend on the inputs (`is any`): in a batch the
+    # degrees have shapes (N,) and (); row by row both are single values
+    E["takagi-sugeno-catch-all"] = {"inputs": [{"name": "X", "terms": IN_TERMS}],
+                                    "outputs": [{"name": "O", "terms": [("Constant", "a", 0.25), ("Constant", "b", 0.75)], "aggregation": None, "defuzzifier": ("WeightedAverage",)},
+                                                {"name": "P", "terms": [("Constant", "a", 0.5), ("Linear", "b", [2.0, 0.25])], "aggregation": None, "defuzzifier": ("WeightedSum",)}],
+                                    "blocks": [{"conjunction": None, "disjunction": None, "implication": None,
+                                                "rules": ["if X is a then O is a and P is b", "if X is any then O is b and P is a with 0.5"]}]}
     # input terms with an x-dependent denominator or several np.where branches evaluated on every x (a plain Python float divides
     # by zero where an array gives inf and discards it)
     E["rational-input-terms"] = {
